@@ -245,6 +245,11 @@ def eval_value(e: ast.AST, env: Dict[str, Any]) -> Any:
             if txt in _IDENTITY_CALLS and len(args) == 1:
                 return args[0]
             recv = eval_value(fn.value, env)
+            if isinstance(recv, dict) and fn.attr in ('keys', 'values', 'items', 'get') and not kw:
+                if fn.attr == 'get':
+                    return recv.get(*args)
+                if not args:
+                    return list(getattr(recv, fn.attr)())
             ok = (isinstance(recv, bytes) and fn.attr in _BYTES_METHODS) or (isinstance(recv, str) and fn.attr in _STR_METHODS)
             if not ok:
                 raise CannotEvaluate('method %s of %s' % (fn.attr, type(recv).__name__))
@@ -255,6 +260,8 @@ def eval_value(e: ast.AST, env: Dict[str, Any]) -> Any:
             if fn.id in ('range', 'xrange') and not kw and 1 <= len(args) <= 3 and all(type(a) is int for a in args) \
                     and not (len(args) == 3 and args[2] == 0):
                 return range(*args)
+            if fn.id in ('min', 'max') and set(kw) == {'default'} and len(args) == 1:
+                return {'min': min, 'max': max}[fn.id](args[0], default=kw['default'])
             if fn.id in ('len', 'int', 'str', 'bytes', 'min', 'max', 'abs', 'bool', 'ord', 'chr') and not kw:
                 if fn.id == 'bytes' and args and isinstance(args[0], int):
                     raise CannotEvaluate('bytes(n)')
